@@ -7,11 +7,13 @@ import struct
 from .index import Program, Func
 from .interp import Env, Unsupported, _txt
 from .terms import (T, C, NONE, TRUE, FALSE, sym, gamma, un, binop, truthy, bcat, as_bcat, bcat_concat,
-                    length, is_const, show, conj)
+                    length, is_const, show, conj, item_len)
 
 EXC_BUILTINS = {"ValueError", "TypeError", "IndexError", "OverflowError", "KeyError", "FileNotFoundError",
                 "NotImplementedError", "AssertionError", "Exception", "struct.error", "RuntimeError",
                 "StopIteration", "AttributeError"}
+FILE_METHODS = {"open", "read", "readline", "readlines", "read_text", "read_bytes", "write", "writelines", "write_text", "write_bytes",
+                "seek", "truncate", "close", "flush", "exists", "is_file", "unlink", "touch"}
 OPAQUE_PREFIXES = ("datetime", "time.", "time", "math.", "pathlib", "logging", "importlib", "os.", "sys.",
                    "deprecation", "dataclasses", "abc.", "typing", "enum.", "collections", "crcmod")
 LIST_MUTATORS = {"append", "extend", "clear", "insert", "pop", "popleft", "remove", "update", "appendleft"}
@@ -23,8 +25,26 @@ class CallsMixin:
         P = self.P
         k = base.k
         if k == "gamma":
-            return gamma(base.a[0], self._getattr_or_none(base.a[1], attr, env, node, fn, base.a[0]),
-                         self._getattr_or_none(base.a[2], attr, env, node, fn, un("not", base.a[0])))
+            # each alternative is read knowing its own gate (a property body then sees the object it really belongs to)
+            vals = []
+            for cond, side in ((base.a[0], base.a[1]), (un("not", base.a[0]), base.a[2])):
+                sub = env.clone()
+                sub.add_fact(cond)
+                if sub.dead:
+                    vals.append(None)
+                    continue
+                sub.pc.append(cond)
+                v_ = self._getattr_or_none(side, attr, sub, node, fn, cond)
+                env.heap = sub.heap
+                vals.append(None if sub.dead else v_)
+            if vals[0] is None and vals[1] is None:
+                env.dead = True
+                return NONE
+            if vals[0] is None:
+                return vals[1]
+            if vals[1] is None:
+                return vals[0]
+            return gamma(base.a[0], vals[0], vals[1])
         if k == "builtin":
             return T("builtin", base.a[0] + "." + attr)
         if k == "crcobj" and attr == "crcValue":
@@ -48,7 +68,16 @@ class CallsMixin:
             oid = base.a[0]
             mattr = self.mangled(attr, fn)
             if (oid, mattr) in env.heap:
-                return env.heap[(oid, mattr)]
+                v_ = env.heap[(oid, mattr)]
+                # a cell that was joined from several paths: the alternative the facts in force select
+                while v_.k == "gamma" and env.facts:
+                    if v_.a[0] in env.facts:
+                        v_ = v_.a[1]
+                    elif un("not", v_.a[0]) in env.facts:
+                        v_ = v_.a[2]
+                    else:
+                        break
+                return v_
             if isinstance(ty, str) and ty in P.classes:
                 r = self.lookup_member(ty, attr, fn)
                 if r:
@@ -206,8 +235,81 @@ class CallsMixin:
                                    "where": self.loc(tgt), "func": self.cur_func(), "text": _txt(tgt)})
             if base.k == "dictlit" and isinstance(tgt.value, (ast.Name, ast.Attribute)) and idx is not None:
                 self.assign(tgt.value, T("dictlit", tuple((k, v) for k, v in base.a[0] if k != idx) + ((idx, val),), ty="dict"), env, mod, fn)
+            elif base.k == "bcat" or (base.k in ("list", "tuple") and idx is not None):
+                # a store into a byte string / list under construction changes the value every later read sees:
+                # modelled for constant positions, reported as unmodelled otherwise (never dropped)
+                if not isinstance(tgt.value, (ast.Name, ast.Attribute)):
+                    self.unsupported("store into a temporary sequence", tgt)
+                if base.k in ("list", "tuple"):
+                    if idx.k == "const" and isinstance(idx.a[0], int) and -len(base.a[0]) <= idx.a[0] < len(base.a[0]):
+                        items = list(base.a[0])
+                        items[idx.a[0]] = val
+                        self.assign(tgt.value, T(base.k, tuple(items), ty=base.ty), env, mod, fn)
+                        return
+                    self.unsupported("store into a list at a non-constant position", tgt)
+                if idx is not None:
+                    lo, n, new = idx, 1, (T("u8", val),)
+                else:
+                    sl = tgt.slice
+                    if sl.step is not None:
+                        self.unsupported("extended slice store", tgt)
+                    lo = self.ev(sl.lower, env, mod, fn) if sl.lower is not None else C(0)
+                    hi = self.ev(sl.upper, env, mod, fn) if sl.upper is not None else None
+                    nb = as_bcat(val)
+                    from .terms import bcat_len
+                    ln = bcat_len(nb) if nb.k == "bcat" else None
+                    if hi is None or ln is None or not (lo.k == "const" and hi.k == "const" and ln.k == "const" and isinstance(lo.a[0], int)
+                                                        and isinstance(hi.a[0], int) and 0 <= lo.a[0] <= hi.a[0] and hi.a[0] - lo.a[0] == ln.a[0]):
+                        self.unsupported("slice store that is not a same-length replacement at constant bounds", tgt)
+                    n, new = ln.a[0], nb.a[0]
+                if not (lo.k == "const" and isinstance(lo.a[0], int) and lo.a[0] >= 0):
+                    self.unsupported("store into a byte string at a non-constant position", tgt)
+                out = self._bcat_splice(base, lo.a[0], n, new, tgt)
+                if out is None:
+                    self.log_raise("IndexError", env, tgt, kind="index")
+                    env.dead = True
+                    return
+                self.assign(tgt.value, out, env, mod, fn)
         else:
             self.unsupported("assignment target", tgt)
+
+    def _bcat_splice(self, buf, off, n, new_items, node):
+        """buf with the n octets at constant offset `off` replaced by new_items (n == 0: nothing to do); None if the
+        range does not lie inside buf; unsupported when buf's layout is not known octet by octet around the range"""
+        items = []
+        for it_ in buf.a[0]:
+            if it_.k == "lit":
+                items += [(T("u8", C(v_)), 1) for v_ in it_.a[0]]
+            else:
+                ln_ = item_len(it_)
+                if ln_.k != "const":
+                    self.unsupported("store into a byte string of unknown layout", node)
+                items.append((it_, ln_.a[0]))
+        total = sum(l_ for _i, l_ in items)
+        if off + n > total:
+            return None
+        if n == 0:
+            return buf
+        pos, out, i_, done = 0, [], 0, False
+        while i_ < len(items):
+            it_, ln_ = items[i_]
+            if pos == off and not done:
+                covered = 0
+                while i_ < len(items) and covered < n:
+                    covered += items[i_][1]
+                    i_ += 1
+                if covered != n:
+                    self.unsupported("store over part of a wider packed item", node)
+                out += list(new_items)
+                pos += n
+                done = True
+                continue
+            if pos < off < pos + ln_:
+                self.unsupported("store into the middle of a wider packed item", node)
+            out.append(it_)
+            pos += ln_
+            i_ += 1
+        return bcat(tuple(out)) if done else None
 
     # ------------------------------------------------------------------ calls
     def eval_call(self, e, env, mod, fn):
@@ -390,6 +492,9 @@ class CallsMixin:
             return T("call", "hash", (recv,), ty="int")
         if name == "update" and recv.k == "crcobj":
             return NONE
+        if name == "digest" and recv.k == "crcobj" and not args:
+            # the two checksum octets, big-endian: what struct.pack("!H", crc.crcValue) gives
+            return bcat((T("packed", "!H", T("crc16v", recv.a[1] if len(recv.a) > 1 else bcat(), ty="int")),))
         if name == "join" and ((recv.k == "const" and recv.a[0] in (b"", bytearray())) or (recv.k == "bcat" and not recv.a[0])) and args \
                 and args[0].k in ("tuple", "list", "optlist"):
             # b"".join(parts): the concatenation of the parts (a part present under a condition contributes nothing otherwise)
@@ -413,11 +518,18 @@ class CallsMixin:
                     return bcat(tuple(T("u8", binop("&", binop(">>", recv, C(8 * (n - 1 - i))), C(0xFF))) for i in range(n)))
                 if n == 0:
                     return bcat()
-        if name in ("timestamp", "exists", "readline", "write", "seek", "strftime", "total_seconds",
-                    "keys", "values", "format", "join", "split", "lower", "upper", "date", "read", "close",
-                    "startswith", "endswith", "copy", "count", "index", "to_bytes", "bit_length"):
-            return T("call", "." + name, (recv,) + tuple(args))
+        if name in FILE_METHODS:
+            self.log_fileop(name, recv, args, kw, env, node)
         return T("call", "." + name, (recv,) + tuple(args))
+
+    def log_fileop(self, op, recv, args, kw, env, node):
+        """file-system effects in program order (open / read* / write* / seek / truncate / close / exists / leaving a
+        with-block), for the rules that speak about what is stored in a file"""
+        if self.quiet:
+            return
+        self.fileops.append({"op": op, "recv": recv, "args": tuple(args), "kw": dict(kw or {}), "seq": next(self.evc), "pc": list(env.pc),
+                             "facts": list(env.facts), "func": self.cur_func(), "stack": tuple(self.where), "where": self.loc(node) if node is not None else "",
+                             "withs": tuple(self.with_stack)})
 
     # ------------------------------------------------------------------ user functions
     def bind_args(self, f: Func, args, kw, env, node):
@@ -746,6 +858,33 @@ class CallsMixin:
                                    "where": self.loc(node), "func": self.cur_func(), "stack": tuple(self.where),
                                    "text": _txt(node)})
             return bcat((T("packed", fmt.a[0], args[1]),))
+        if name == "struct.pack_into" and len(args) >= 4:
+            # struct.pack_into(fmt, buf, offset, v...): the octets struct.pack gives, written over buf[offset:offset+n]
+            fmt, buf, off = args[0], args[1], args[2]
+            target = node.args[1] if isinstance(node, ast.Call) and len(node.args) >= 2 else None
+            if not (fmt.k == "const" and isinstance(fmt.a[0], str) and off.k == "const" and isinstance(off.a[0], int) and off.a[0] >= 0
+                    and buf.k == "bcat" and isinstance(target, ast.Name) and env.vars.get(target.id) is buf):
+                self.unsupported("struct.pack_into with a non-constant format / offset or a buffer that is not a local byte string", node)
+            new = self.call_builtin("struct.pack", [fmt] + list(args[3:]), {}, env, node)
+            n = struct.calcsize(fmt.a[0])
+            spliced = self._bcat_splice(buf, off.a[0], n, tuple(new.a[0]), node)
+            if spliced is None:
+                self.log_raise("struct.error", env, node, kind="struct")
+                env.dead = True
+                return NONE
+            env.vars[target.id] = spliced
+            return NONE
+        if name in ("getattr", "setattr") and len(args) >= 2 and args[1].k == "const" and isinstance(args[1].a[0], str):
+            if name == "getattr" and len(args) == 2:
+                return self.getattr(args[0], args[1].a[0], env, node)
+            if name == "setattr" and len(args) == 3:
+                self.setattr(args[0], args[1].a[0], args[2], env, node, None)
+                return NONE
+        if name in ("itertools.chain", "chain") and args and all(a_.k in ("list", "tuple") for a_ in args):
+            out_ = ()
+            for a_ in args:
+                out_ += tuple(a_.a[0])
+            return T("list", out_, ty=("list", None))
         if name == "struct.unpack":
             fmt, buf = args[0], args[1]
             if fmt.k == "gamma":
@@ -831,6 +970,8 @@ class CallsMixin:
             if name == "tuple" and args and args[0].k in ("tuple", "list"):
                 return T("tuple", args[0].a[0])
             ty = {"str": "str", "repr": "str", "hex": "str", "open": "file"}.get(name)
+            if name == "open":
+                self.log_fileop("open", None, args, kw, env, node)
             return T("call", name, tuple(args), ty=ty)
         if name == "dict":
             return T("dictlit", (), ty="dict")
@@ -850,7 +991,8 @@ class CallsMixin:
             ty = None
             if name.startswith("datetime"):
                 ty = "datetime"
-            return T("call", name, tuple(args) + tuple(kw.values()), ty=ty)
+            # keyword arguments keep their names: timedelta(milliseconds=1) is not timedelta(1)
+            return T("call", name, tuple(args) + tuple(T("kw", k_, v_) for k_, v_ in kw.items()), ty=ty)
         if name == "super":
             return T("super")
         self.unsupported(f"builtin {name}", node)
